@@ -200,6 +200,7 @@ class dhcp(packet_base):
 
         self.hdr_len = dlen
         self.parsed = True
+        self.options = util.DirtyDict()
 
         if self.hlen > 16:
             self.warn('(dhcp parse) DHCP hlen %u too long' % (self.hlen),)
